@@ -110,10 +110,92 @@ fn flood_family(lines: &mut Vec<String>) {
     }
 }
 
+/// Family (7) `intent`: dance lists that mix plain marker keys with actions the parser REBUILDS after
+/// parsing (`fill_chords`, the second half of `resolve_chord_groups`: everything that contains a
+/// `switch` or an old-style `chord`, alone or inside fork / multi), lazy and eager, at every position.
+/// The layout model runs on what the real parser built, so a parser that builds the wrong list is
+/// invisible to the correspondence; these cases carry the INTENT in the configuration text
+/// (`;; dance-expect <eager 0|1> <T> <key code of position 1> <...>`), and the runner's model-free
+/// oracle (`runner/props.py: _c17_intent_oracle`) judges the N-th tap against it.  Histories are
+/// complete taps a few ticks apart (well inside T), optionally followed by a tap of the plain key.
+fn intent_family(lines: &mut Vec<String>, thorough: bool) {
+    let (ka, kb) = (code("a"), code("b"));
+    // shape of one position with marker `m` (its chord-group key is `k<m>`)
+    let shape = |kind: usize, m: &str| -> String {
+        match kind {
+            0 => m.to_string(),
+            1 => format!("(switch () {m} break)"),
+            2 => format!("(fork (switch () {m} break) n (lsft))"),
+            3 => format!("(multi (switch () {m} break) (switch () XX break))"),
+            _ => format!("(chord grp k{m})"),
+        }
+    };
+    let t = 50u32;
+    for len in 2..=3usize {
+        let n_shapes = 5usize.pow(len as u32);
+        for sh in 0..n_shapes {
+            let kinds: Vec<usize> = (0..len).map(|i| (sh / 5usize.pow(i as u32)) % 5).collect();
+            // at least one rebuilt action and at least one plain one
+            if kinds.iter().all(|k| *k == 0) || kinds.iter().all(|k| *k != 0) {
+                continue;
+            }
+            if !thorough && len == 3 && kinds.iter().filter(|k| **k >= 2).count() > 1 {
+                continue;
+            }
+            for eager in [false, true] {
+                // a chord action needs its own timeout to resolve: not judged in the eager form
+                if eager && kinds.contains(&4) {
+                    continue;
+                }
+                let list: Vec<String> = (0..len).map(|i| shape(kinds[i], M[i])).collect();
+                let expect: Vec<String> = (0..len).map(|i| code(M[i]).to_string()).collect();
+                // a chord group may only define keys that are used
+                let used: Vec<String> = (0..len).filter(|i| kinds[*i] == 4).map(|i| format!("(k{}) {}", M[i], M[i])).collect();
+                let defchords = if used.is_empty() { String::new() } else { format!("(defchords grp 20 {})\n", used.join(" ")) };
+                let cfg = format!(
+                    "(defcfg rapid-event-delay 0)\n(defsrc a b)\n{defchords}(deflayer l0 ({} {t} ({})) b)\n(deflayer l1 _ z)\n;; dance-expect {} {t} {}\n",
+                    if eager { "tap-dance-eager" } else { "tap-dance" },
+                    list.join(" "),
+                    if eager { 1 } else { 0 },
+                    expect.join(" ")
+                );
+                for n in 1..=len + 1 {
+                    for with_b in [false, true] {
+                        for g in [2u32, 4] {
+                            if g == 4 && (with_b || n > len) {
+                                continue;
+                            }
+                            let mut h = vec![];
+                            for _ in 0..n {
+                                h.push(HEv::Press(0, ka));
+                                h.push(HEv::Tick(g));
+                                h.push(HEv::Release(0, ka));
+                                h.push(HEv::Tick(g));
+                            }
+                            if with_b {
+                                h.push(HEv::Press(0, kb));
+                                h.push(HEv::Tick(g));
+                                h.push(HEv::Release(0, kb));
+                                h.push(HEv::Tick(g));
+                            }
+                            h.push(HEv::Tick(t + 100));
+                            lines.push(mk_line("LAY", false, &cfg, &h));
+                        }
+                    }
+                }
+            }
+        }
+    }
+}
+
 pub fn gen(tier: &str, seed: u64) -> Vec<String> {
     let mut r = Rng::new(seed ^ 0xC17);
     let thorough = tier == "thorough";
     let mut lines = vec![];
+    if tier == "intent" {
+        intent_family(&mut lines, false);
+        return lines;
+    }
     if tier == "cov" || tier == "covt" {
         // only the families that were added to reach otherwise unexecuted code (debugging aid;
         // "covt" = their thorough-tier size)
@@ -260,5 +342,7 @@ pub fn gen(tier: &str, seed: u64) -> Vec<String> {
     }
     // (6) more than 32 events between two ticks while a dance is pending
     flood_family(&mut lines);
+    // (7) lists mixing plain keys with actions the parser rebuilds; judged against the written intent
+    intent_family(&mut lines, thorough);
     lines
 }
